@@ -142,3 +142,26 @@ package system
 //@ func (d Decimal) Round(precision) (res)
 //@   ensures res == roundPlaces(d, precision)
 //@   assigns nothing
+//
+// ---- C10: containment used by the set functions ------------------------------------------
+//@ func Equal(lhs, rhs) (res)
+//@   defines res == sysEq(lhs, rhs)
+//@   assigns nothing
+//
+//@ func (c Collection) containsSystem(value) (res)
+//@   ensures res == (exists k int :: 0 <= k && k < len(c) && fromOk(c[k]) && sysEq(fromS(c[k]), value))
+//@   loop 1 (i):
+//@     invariant 0 <= i && i <= len(c)
+//@     invariant forall k int :: 0 <= k && k < i ==> !(fromOk(c[k]) && sysEq(fromS(c[k]), value))
+//@   assigns nothing
+//
+//@ func (c Collection) containsProto(value) (res)
+//@   ensures res == (exists k int :: 0 <= k && k < len(c) && isProtoMsg(c[k]) && protoEq(c[k], value))
+//@   loop 1 (i):
+//@     invariant 0 <= i && i <= len(c)
+//@     invariant forall k int :: 0 <= k && k < i ==> !(isProtoMsg(c[k]) && protoEq(c[k], value))
+//@   assigns nothing
+//
+//@ func (c Collection) Contains(value) (res)
+//@   ensures res == containsS(c, value)
+//@   assigns nothing
